@@ -4,7 +4,7 @@ import engine_plugin as ep
 
 ID = "C09"
 LEAN_MODULES = ['HgVerif.Props.C09', 'HgVerif.Model.Engine', 'HgVerif.Model.Extracted']
-THEOREMS = ['HgVerif.Engine.nested_push_clamped', 'HgVerif.Engine.child_not_before_parent', 'HgVerif.Engine.root_schedule_direct']
+THEOREMS = ['HgVerif.Engine.nested_push_clamped', 'HgVerif.Engine.child_not_before_parent', 'HgVerif.Engine.root_schedule_direct', 'HgVerif.Sched.child_wakeups_kept', 'HgVerif.Sched.push_wakes_parent']
 CXX_TARGETS = ['hgv_engine']
 USES_EXTRACT = True
 RULE = 'each generated sub-graph definition (stateful nodes, self-scheduling scripts, internal sources, passive/unchecked inputs) is wired twice in one parent, nested and inlined, with sinks on both outputs that must record equal streams; non-trivial = >=2 cycles with user code; distinct by program text'
